@@ -762,6 +762,6 @@ def check_breakdown(case):
 
 
 PARTS = [
-    Part("krylov", check_case, {"quick": 2000, "thorough": 40000}, strategy=st_case),
-    Part("breakdown", check_breakdown, {"quick": 400, "thorough": 6000}, strategy=st_breakdown),
+    Part("krylov", check_case, {"quick": 20000, "thorough": 40000}, strategy=st_case),
+    Part("breakdown", check_breakdown, {"quick": 4000, "thorough": 6000}, strategy=st_breakdown),
 ]
